@@ -751,6 +751,13 @@ fn hash_op(op: &str, a: &[&str]) -> R {
 fn misc_op(op: &str, a: &[&str]) -> R {
     Some(match (op, a.len()) {
         ("pairing", 2) => Bls12::pairing(g1::parse_aff(a[0])?, g2::parse_aff(a[1])?).show(),
+        // projective inputs, converted with the library's own into_affine (identity representatives with junk X, Y included)
+        ("pairjac", 2) => Bls12::pairing(g1::parse_jac(a[0])?.into_affine(), g2::parse_jac(a[1])?.into_affine()).show(),
+        ("pairjacprep", 2) => {
+            let p = g1::parse_jac(a[0])?.into_affine().prepare();
+            let q = g2::parse_jac(a[1])?.into_affine().prepare();
+            show_opt(Bls12::final_exponentiation(&Bls12::miller_loop(&[(&p, &q)])))
+        }
         ("pairwith1", 2) => g1::parse_aff(a[0])?.pairing_with(&g2::parse_aff(a[1])?).show(),
         ("pairwith2", 2) => g2::parse_aff(a[1])?.pairing_with(&g1::parse_aff(a[0])?).show(),
         ("consts", 1) if a[0] == "fq" => format!("{} {} {} {} {} {}", limbs_hex(&Fq::char().0), Fq::NUM_BITS, Fq::CAPACITY, Fq::S, Fq::multiplicative_generator().show(), Fq::root_of_unity().show()),
